@@ -3,7 +3,7 @@ driver (`P2sh/Driver/PktDrv.lean`), and the classifier that labels a failure wit
 
 Verdicts (second half of a driver line):
   psteps <alt> || <alt> … @@ <hints>     one alternative must match position-wise; an entry is
-                                          `-` (unconstrained) · `!rterr` · `alt:<a>|<b>|…` · literal text
+                                          `-` (unconstrained) · `!rterr` · `!obj` (not a layer object) · `alt:<a>|<b>|…` · literal text
   addr-std <bytes> | addr-bad | addr-any  op `addr`: accepted with this value (and its displayed text parses back to it) ·
                                           rejected · nothing demanded except the round trip of whatever was accepted
 `hints` (one per step, from the model) say where the cached layer objects sit; they are used ONLY to name a failure.
@@ -44,6 +44,9 @@ def step_ok(want, got):
         return True
     if want == "!rterr":
         return not got.startswith(("rterr", "PANIC"))
+    if want == "!obj":
+        # "an X object if the type field says X": with another type field, whatever comes back is not a layer object
+        return not got.startswith(("ok O:", "PANIC"))
     if want.startswith("alt:"):
         return got in want[4:].split("|")
     return want == got
